@@ -414,6 +414,7 @@ func c15hammerFirstWriters(r *rand.Rand, cs c15case, res *core.CaseResult) {
 					defer wg.Done()
 					buf := bytes.Repeat([]byte{byte('a' + i)}, region)
 					for atomic.LoadInt32(&goFlag) == 0 {
+						runtime.Gosched() // (spinning without yielding starves the releasing goroutine when the machine is oversubscribed)
 					}
 					if p := core.Recover(func() { _, errs[i] = hackpadfs.WriteAtFile(hs[i], buf, int64(i*region)) }); p != "" {
 						errs[i] = fmt.Errorf("panic: %s", p)
@@ -651,6 +652,7 @@ func c15hammerShrinkVsReaders(r *rand.Rand, cs c15case, res *core.CaseResult) {
 						return
 					}
 					for atomic.LoadInt32(&goFlag) == 0 {
+						runtime.Gosched() // (spinning without yielding starves the releasing goroutine when the machine is oversubscribed)
 					}
 					_ = hackpadfs.TruncateFile(h, tgt)
 					_ = h.Close()
